@@ -200,6 +200,8 @@ def run(ck, facts, tier):
                 quot = cel.vkey(Sym("ctor", "Ok", Sym("ctor", "F64", Poly.atom("ib") * Poly.atom("cv").inv())))
                 ok = paths.path_set(res) == {(frozenset([want_c]), zero), (frozenset([(want_c[0], not want_c[1])]), quot)}
                 ck.check(r3, key, ok, "index value is not [date < first node] 0 | base / curve value: %s" % cel.vfmt(res)[:400], where, sample="x < first_key: 0 ; else ib / curve(date)")
+    from rules import pywrap
+    pywrap.run_curve_wrappers(ck, facts)
     from rules import deps
     deps.include_ad(ck, facts, tier)
     ck.not_decided += ["gradients/Hessians of looked-up values as numbers (they follow from R11.1 being generic over the number type + C01/C02)",
